@@ -48,6 +48,9 @@ static int check_layout(int p, unsigned long c, long start, long end, int rc) {
 
 void harness(void) {
   unsigned long n = IN(0), start = IN(1), c1 = IN(2), c2 = IN(3), mv = IN(4);
+#ifdef NFIXED
+  ASSUME(n == GBUF);
+#endif
   ASSUME(n <= GBUF && start <= n);
 #ifdef CFIX
   /* one query per chunk size: a symbolic divisor makes the 64-bit remainder in
